@@ -317,9 +317,10 @@ def run_check(prop_id, tier, seed):
         for (h, evs) in read_runs(path):
             traces.setdefault((prim, consts_key(prim, h)), []).append((h, evs, origin))
 
-    for (prim, c, tour), r in sorted(results.items(), key=lambda x: x[0][1]):
-        if not tour:
-            continue
+    import threading
+    ev_lock = threading.Lock()
+    def replay_cfg(item):
+        (prim, c, tour), r = item
         info = PRIMS[prim]
         wd = os.path.dirname(r["out"])
         tours = os.path.join(wd, "tours.ndjson")
@@ -331,12 +332,13 @@ def run_check(prop_id, tier, seed):
             raise ToolError("tourgen failed for %s: %s" % (c, p.stderr[-2000:]))
         hdr = json.loads(p.stdout.strip().splitlines()[-1])
         os.remove(r["out"])  # edge dump no longer needed
-        if is_walk:
-            ev["walk_steps"] = ev.get("walk_steps", 0) + hdr["steps"]
-        else:
-            ev["edges"] += hdr["edges"]
-        cfgrec = next(x for x in ev["configs"] if x["cfg"] == c)
-        cfgrec.update({"edges": hdr["edges"], "paths": hdr["paths"], "steps": hdr["steps"], "consts": hdr["consts"]})
+        with ev_lock:
+            if is_walk:
+                ev["walk_steps"] = ev.get("walk_steps", 0) + hdr["steps"]
+            else:
+                ev["edges"] += hdr["edges"]
+            cfgrec = next(x for x in ev["configs"] if x["cfg"] == c)
+            cfgrec.update({"edges": hdr["edges"], "paths": hdr["paths"], "steps": hdr["steps"], "consts": hdr["consts"]})
         all_clean = True
         def rp(fl):
             od = os.path.join(wd, "rec-" + fl)
@@ -358,42 +360,51 @@ def run_check(prop_id, tier, seed):
                                 if d["id"] == pid:
                                     ops = [st[0] for st in d["steps"]]
                                     break
-                crashes.append({"prim": prim, "flavour": fl, "cfg": c, "path": pid, "signal": -ce.rc, "ops": ops,
-                                "consts": hdr["consts"]})
+                with ev_lock:
+                    crashes.append({"prim": prim, "flavour": fl, "cfg": c, "path": pid, "signal": -ce.rc, "ops": ops,
+                                    "consts": hdr["consts"]})
                 return fl, {"paths": 0, "steps": 0, "drift": [], "samples": [], "crashed": True}
         flavours = cfg_flavours.get(c, info["flavours"])
         with cf.ThreadPoolExecutor(max_workers=len(flavours)) as ex:
             outs = list(ex.map(rp, flavours))
-        for fl, s in outs:
-            ev["paths_replayed"] += s["paths"]
-            ev["steps_replayed"] += s["steps"]
-            ev["flavours"].setdefault(prim, [])
-            if fl not in ev["flavours"][prim]:
-                ev["flavours"][prim].append(fl)
-            if s.get("crashed"):
-                all_clean = False
-                ev["drift"] = True
-                ev["exhaustive"] = False
-            if s["drift"]:
-                all_clean = False
-                ev["drift"] = True
-                ev["exhaustive"] = False
-                for d in s["drift"][:25]:
-                    add_trace_file(prim, d["trace"], "drift %s %s path %s step %s: %s" % (c, fl, d["path"], d["step"], d["why"]))
-                ev["drift_details"].append({"cfg": c, "flavour": fl, "paths_drifting": len(s["drift"]),
-                                            "first": {k: s["drift"][0][k] for k in ("path", "step", "why")}})
-            for smp in s["samples"]:
-                add_trace_file(prim, smp["trace"], "conforming %s %s path %s" % (c, fl, smp["path"]))
-        if all_clean and not is_walk:
-            ev["edges_covered"] += hdr["edges_covered"]
         # action coverage from the tour file itself
+        acts = {}
         with open(tours) as f:
             for line in f:
                 if line.startswith('{"kind":"path"'):
                     for st in json.loads(line)["steps"]:
                         k = prim + "." + st[0]["op"]
-                        ev["actions"][k] = ev["actions"].get(k, 0) + 1
+                        acts[k] = acts.get(k, 0) + 1
+        with ev_lock:
+            for k, v in acts.items():
+                ev["actions"][k] = ev["actions"].get(k, 0) + v
+            for fl, s in outs:
+                ev["paths_replayed"] += s["paths"]
+                ev["steps_replayed"] += s["steps"]
+                ev["flavours"].setdefault(prim, [])
+                if fl not in ev["flavours"][prim]:
+                    ev["flavours"][prim].append(fl)
+                if s.get("crashed"):
+                    all_clean = False
+                    ev["drift"] = True
+                    ev["exhaustive"] = False
+                if s["drift"]:
+                    all_clean = False
+                    ev["drift"] = True
+                    ev["exhaustive"] = False
+                    for d in s["drift"][:25]:
+                        add_trace_file(prim, d["trace"], "drift %s %s path %s step %s: %s" % (c, fl, d["path"], d["step"], d["why"]))
+                    ev["drift_details"].append({"cfg": c, "flavour": fl, "paths_drifting": len(s["drift"]),
+                                                "first": {k: s["drift"][0][k] for k in ("path", "step", "why")}})
+                for smp in s["samples"]:
+                    add_trace_file(prim, smp["trace"], "conforming %s %s path %s" % (c, fl, smp["path"]))
+            if all_clean and not is_walk:
+                ev["edges_covered"] += hdr["edges_covered"]
         log("replayed %s on %s: %d edges, %d paths, drift=%s" % (c, ",".join(flavours), hdr["edges"], hdr["paths"], not all_clean))
+
+    tour_items = [it for it in sorted(results.items(), key=lambda x: x[0][1]) if it[0][2]]
+    with cf.ThreadPoolExecutor(max_workers=4) as ex:
+        list(ex.map(replay_cfg, tour_items))
 
     # ---- phase 3: random histories beyond the model bounds (code -> spec)
     for prim in prop["prims"]:
